@@ -34,9 +34,9 @@ ASSUMPTIONS = [
     "comparisons against undefined bare identifiers are not generated (the simplifier folds an undefined operand to n even inside a relation)",
     "clause (1) is one-directional as the statement is: documenting an unreachable option is not a violation",
 ]
-BUDGET = {"quick": {"examples": 3200}, "thorough": {"examples": 600000, "deadline_s": 900}}
+BUDGET = {"quick": {"examples": 12800}, "thorough": {"examples": 600000, "deadline_s": 900}}
 
-CFG = gen.cfg(max_syms=7, min_syms=3, p_macro=0, p_env=0, p_source=0, p_menu=25, p_if=20, p_choice=14, p_set=8, p_wset=8, p_select=18, p_imply=10, p_prompt=93, p_prompt_cond=40, p_depends=60, p_help=10, p_warning=0, float=False, p_prefer=75, p_dup_menu_title=35, p_menu_dep=50,
+CFG = gen.cfg(max_syms=7, min_syms=3, p_macro=0, p_env=0, p_source=0, p_menu=25, p_if=20, p_choice=14, p_wset=8, p_imply=10, p_prompt=93, p_prompt_cond=40, p_depends=60, p_help=10, p_warning=0, float=False, p_prefer=75, p_menuconfig=22, p_select=26, p_set=16, p_dup_menu_title=35, p_menu_dep=50,
               deprioritized=("IDF_TARGET", "IDF_TARGET_CHIPA", "IDF_TARGET_CHIPB", "VK_CAP_A", "VK_CAP_B", "VK_CAP_N"))
 MAX_CONFIGS = 1024
 
@@ -183,10 +183,24 @@ def check(case) -> Result:
             res.skipped = "construct:" + type(e).__name__
             return res
         out = os.path.join(d, "kconfig.rst")
+        # every condition the generator prepares for printing is recorded while the real write_docs() runs (so a change
+        # inside write_menu_item is seen), together with the dependencies it stripped
+        calls = []
+        real_prepare = gd._prepare_cond
+
+        def recording_prepare(cond, visibility_, kconfig_, direct_deps=None):
+            r = real_prepare(cond, visibility_, kconfig_, direct_deps=direct_deps)
+            calls.append((cond, direct_deps, r))
+            return r
+
         try:
             with kc.environ({"IDF_TARGET": case["target"]}):
                 visibility = gd.ConfigTargetVisibility(k, case["target"])
-                gd.write_docs(k, visibility, out)
+                gd._prepare_cond = recording_prepare
+                try:
+                    gd.write_docs(k, visibility, out)
+                finally:
+                    gd._prepare_cond = real_prepare
             text = open(out).read()
         except Exception as e:
             res.fail(exc_sig(e, "exception|write_docs|"), f"{type(e).__name__}: {e}")
@@ -202,42 +216,42 @@ def check(case) -> Result:
                 return res
 
         # ---- conditions shown by the generator --------------------------------------------------------------------------
+        # which Kconfig condition is which, and what the reader may assume next to it (the dependencies that are documented
+        # elsewhere on the page: the option's own ones for range / default rows, the SOURCE's for select / set rows)
+        origin = {}
+        for sym in k.unique_defined_syms:
+            for node in sym.nodes:
+                if node.prompt and node.prompt[1] is not k.y:
+                    origin.setdefault(id(node.prompt[1]), []).append((f"can-be-set-when {sym.name}", None))
+            for _lo, _hi, cond in sym.ranges:
+                origin.setdefault(id(cond), []).append((f"range-cond {sym.name}", sym.direct_dep))
+            for _v, cond in sym.defaults:
+                origin.setdefault(id(cond), []).append((f"default-cond {sym.name}", sym.direct_dep))
+            for t, cond in sym.selects:
+                origin.setdefault(id(cond), []).append((f"select-cond {sym.name}->{t.name}", sym.direct_dep))
+            for t, _v, cond in sym.sets:
+                origin.setdefault(id(cond), []).append((f"set-cond {sym.name}->{t.name}", sym.direct_dep))
         shown = []  # (description, original expr, shown expr, guard expr or None)
-        try:
-            for node in k.node_iter():
-                if type(node.item) is not kc.core.Symbol or not node.prompt or node.parent is None:
-                    continue
-                if type(node.parent.item) is kc.core.Choice or not visibility.visible(node):
-                    continue
-                sym = node.item
-                c = gd._prepare_cond(node.prompt[1], visibility, k)
-                if c is not None:
-                    shown.append((f"can-be-set-when {sym.name}", node.prompt[1], c, None))
-                rows = [(i, cond) for i, (_lo, _hi, cond) in enumerate(sym.ranges)]
-                for i, disp in gd._filter_possibly_applicable_rows(rows, visibility, k, direct_deps=sym.direct_dep):
-                    shown.append((f"range-cond {sym.name}", sym.ranges[i][2], disp, sym.direct_dep))
-                rows = [(i, cond) for i, (_v, cond) in enumerate(sym.defaults)]
-                for i, disp in gd._filter_possibly_applicable_rows(rows, visibility, k, direct_deps=sym.direct_dep):
-                    shown.append((f"default-cond {sym.name}", sym.defaults[i][1], disp, sym.direct_dep))
-                for _t, cond in sym.selects:
-                    c = gd._prepare_cond(cond, visibility, k, direct_deps=sym.direct_dep)
-                    if c is not None:
-                        shown.append((f"affects-cond {sym.name}", cond, c, sym.direct_dep))
-                for _t, _v, cond in sym.sets:
-                    c = gd._prepare_cond(cond, visibility, k, direct_deps=sym.direct_dep)
-                    if c is not None:
-                        shown.append((f"affects-cond {sym.name}", cond, c, sym.direct_dep))
-                for src in k.unique_defined_syms:
-                    conds = [cond for t, cond in src.selects if t is sym] + [cond for t, _v, cond in src.sets if t is sym]
-                    if not conds or not gd._source_sym_may_force(src, visibility):
-                        continue
-                    for cond in conds:
-                        c = gd._prepare_cond(cond, visibility, k, direct_deps=src.direct_dep)
-                        if c is not None:
-                            shown.append((f"forced-by-cond {sym.name}<-{src.name}", cond, c, src.direct_dep))
-        except Exception as e:
-            res.fail(exc_sig(e, "exception|prepare_cond|"), f"{type(e).__name__}: {e}")
-            return res
+        seen_calls = set()
+        for cond, _stripped, shown_cond in calls:
+            if shown_cond is None or cond is k.y or id(cond) not in origin:
+                continue
+            key = (id(cond), id(shown_cond) if isinstance(shown_cond, tuple) else shown_cond)
+            if key in seen_calls:
+                continue
+            seen_calls.add(key)
+            # a bare option used as a condition is one shared object: pick the use this call belongs to
+            if _stripped is None:
+                cands = [c for c in origin[id(cond)] if c[1] is None]
+            else:
+                cands = [c for c in origin[id(cond)] if c[1] is not None]
+                same = [c for c in cands if c[1] is _stripped]
+                cands = same[:1] if same else cands
+            if len({id(c[1]) for c in cands}) != 1:
+                res.count("conditions_not_attributable", 1)
+                continue
+            desc, guard = cands[0]
+            shown.append((desc, cond, shown_cond, guard))
 
         # ---- enumerate the configurations ----------------------------------------------------------------------------------
         dims = _domain(tree, k)
